@@ -32,7 +32,7 @@ def cases(chk):
     ]
     for c in corpus:
         yield "random", c
-    for _ in range(chk.scale(150, 3000)):
+    for _ in range(chk.scale(150, 1500)):
         nt = r.randint(2, 4)
         sid = [0]
 
@@ -41,7 +41,7 @@ def cases(chk):
             return sid[0]
         yield "random", {"work": [[fresh() for _i in range(r.randint(1, 4))] for _t in range(nt)], "seed": r.randrange(1 << 30)}
     # line-level preemption inside the coder, the layer base class and the noise layers: a switch between ANY two source lines
-    for _ in range(chk.scale(80, 2500)):
+    for _ in range(chk.scale(80, 500)):
         nt = r.randint(2, 3)
         sid = [0]
 
@@ -287,7 +287,7 @@ def run_case(chk, stream, case):
         for i, opts in branch:
             for alt in opts[1:]:
                 stack.append(c.choices[:i] + [alt])
-        if runs > 200000:
+        if runs > 8000:
             break
     chk.hit("exhaustive-runs:%d" % runs)
     chk.notes.append("exhaustive %s: %d schedules, %d distinct byte streams" % (case["work"], runs, len(seen_wires)))
